@@ -130,6 +130,25 @@ func c06DupCause(e *jEntry, i, j int) string {
 			return "greater-mid-overflow"
 		}
 	}
+	if e.Op.Op == "offer" {
+		// this CreateOffer gave an unset transceiver a mid another transceiver already had
+		// (the numbering loop has not yet seen transceivers later in the list, nor the
+		// pending remote description)
+		had, fresh := false, false
+		for k, t := range e.Trs {
+			if t.Mid != mid {
+				continue
+			}
+			if k < len(e.Before) && e.Before[k].Mid == mid {
+				had = true
+			} else if k < len(e.Before) && e.Before[k].Mid == "" {
+				fresh = true
+			}
+		}
+		if had && fresh {
+			return "fresh-mid-equals-existing-transceiver-mid"
+		}
+	}
 	dup := map[string]bool{}
 	for _, m := range e.RemoteAllMids {
 		if dup[m] && m == mid {
@@ -192,6 +211,12 @@ func c06Corpus() []jCase {
 		{Peers: 1, Ops: []jOp{
 			{Op: "srd", Ty: "offer", Desc: &jDesc{Secs: []jSec{sec("audio", "a", "sendrecv"), sec("video", "b", "sendonly"), sec("application", "S", "")}, Group: jStr("LS a S")}},
 			{Op: "answer"}, {Op: "sld", Ty: "answer"}, {Op: "offer"}}},
+		// CreateOffer while a remote offer is pending: the unset transceiver is numbered
+		// before the loop has seen the transceiver the remote offer just bound to mid "0"
+		{Peers: 1, Ops: []jOp{
+			{Op: "add", Kind: "audio", Dir: "recvonly"},
+			{Op: "srd", Ty: "offer", Desc: &jDesc{Secs: []jSec{sec("video", "0", "sendrecv")}, Group: jStr("BUNDLE 0")}},
+			{Op: "offer"}}},
 		// plain two-peer exchange with data channel and renegotiation from the other side
 		{Peers: 2, Ops: []jOp{
 			{P: 0, Op: "add", Kind: "audio", Dir: "sendrecv"}, {P: 0, Op: "dc"},
@@ -213,7 +238,7 @@ func init() {
 	imports := []string{"Model.JsepMid", "Check.JsepMidRun", "Check.C06"}
 	Register(Spec[jCase]{
 		ID: "C06", Suite: "synth", CoqImports: imports,
-		CoqType: "list (list op)", CoqRun: "Check.C06.run",
+		CoqType: "list (list op)", CoqRun: jRunName("C06"),
 		Quick: 220, Thorough: 12000, Parallel: 8,
 		Corpus: c06Corpus,
 		Gen:    func(r *Rand, i int) jCase { return jGenSynth(r, 10) },
@@ -221,14 +246,14 @@ func init() {
 	})
 	Register(Spec[jCase]{
 		ID: "C06", Suite: "hostile", CoqImports: imports,
-		CoqType: "list (list op)", CoqRun: "Check.C06.run",
+		CoqType: "list (list op)", CoqRun: jRunName("C06"),
 		Quick: 120, Thorough: 6000, Parallel: 8,
 		Gen: func(r *Rand, i int) jCase { return jGenSynth(r, 30) },
 		Run: c06Run, Coq: jCoqOf, Shrink: jShrink,
 	})
 	Register(Spec[jCase]{
 		ID: "C06", Suite: "pair", CoqImports: imports,
-		CoqType: "list (list op)", CoqRun: "Check.C06.run",
+		CoqType: "list (list op)", CoqRun: jRunName("C06"),
 		Quick: 120, Thorough: 6000, Parallel: 8,
 		Gen: func(r *Rand, i int) jCase { return jGenPair(r, 10) },
 		Run: c06Run, Coq: jCoqOf, Shrink: jShrink,
